@@ -210,3 +210,40 @@ def qd_once(ctx):
         else:
             out.append(bad('QD-once', 'JobState::take', 'JobState::take no longer leaves Completed behind', fn=js.name))
     return out
+
+
+def qd_wake_blocked(ctx):
+    """JobQueueCore.wake_blocked: blocked sync callers register once (push) and stay registered until they leave; the list is only ever
+    pruned of entries whose waiter is gone (retain on strong_count)."""
+    F = ctx.F
+    out = []
+    R = 'QD-waiters'
+    if JQC not in F.adts:
+        return [undecided(R, 'anchor', 'JobQueueCore not found')]
+    counts = defaultdict(int)
+    for fn in F.crate_fns():
+        u = FieldUse(fn, JQC)
+        for (bb, m, t) in u.calls.get('wake_blocked', []):
+            counts[m] += 1
+            key = '%s|wake_blocked.%s' % (short(fn.root or fn.name), m)
+            if m in ('push', 'iter_mut', 'iter', 'len', 'deref', 'deref_mut'):
+                out.append(ok(R, key, 'allowed', loc=fn.loc(bb), fn=fn.name))
+            elif m == 'retain':
+                # the predicate must be the liveness test
+                cl = [clean_ty(a['pl']['ty'])[9:-1] for a in t['args'] if a['k'] != 'const' and clean_ty(a['pl']['ty']).startswith('{closure:')]
+                live = False
+                for c in cl:
+                    cf = F.fn(c)
+                    if cf and any((tt['func'].get('fn') or '').endswith('Weak::strong_count') for _, tt in cf.calls()):
+                        live = True
+                if live:
+                    out.append(ok(R, key, 'prunes only entries whose waiter is gone (strong_count)', loc=fn.loc(bb), fn=fn.name))
+                else:
+                    out.append(bad(R, key, 'waiters are removed by a predicate other than "the waiter is gone"', loc=fn.loc(bb), fn=fn.name))
+            else:
+                out.append(bad(R, key, 'the list of blocked sync callers is mutated with `%s`: a waiter that is woken but cannot claim the queue relies on being notified again' % m, loc=fn.loc(bb), fn=fn.name))
+        for (bb, i, val) in u.assigns.get('wake_blocked', []):
+            out.append(bad(R, '%s|wake_blocked.assign' % short(fn.root or fn.name), 'the list of blocked sync callers is replaced wholesale', loc=fn.loc(bb, i), fn=fn.name))
+    if counts['push'] < 1 or counts['retain'] < 2:
+        out.append(undecided(R, 'floor', 'expected 1 push and 2 retain sites, found %d/%d' % (counts['push'], counts['retain'])))
+    return out
